@@ -85,3 +85,9 @@ claim("C06",
       "Decides the two structural disciplines that value semantics needs under the repository's shallow-copy design: no in-place write of a cell taken from an array's slot list unless guarded by RefSlotCount > 0, and every store of a value into a variable slot, property, array element or array literal copies an *ArrayValue first (clone copies properties through such a store). A violation of either lets a write through one name show through another for some route. It does not decide nested arrays beyond the detach rule (a listed known finding), in-place sort/push internals, or what a program prints.",
       "cell origins recognised syntactically (X.List[i], range over X.List, FindSlotByIntKey); guards recognised as if-conditions on RefSlotCount; SPL object storages tabled as not armed; sink table confirmed by reading",
       "DESIGN.md §2 C06")
+
+claim("C11",
+      "census of package-level variables written outside init on the request path (packages node and std/net/http) with a keyed-by-request discharge rule for sync.Map stores; per-entry-point check that the handler runs in a context created for the request",
+      "Decides two structural necessary conditions of 'a response depends on its request only': no package-level variable on the request path holds request data (each written variable is per-request keyed, tabled process configuration, or a listed finding with a witness), and every ServeHTTP / middleware entry evaluates the script function in a context it created by CreateContext with the request and response bound into that context. On the pinned tree the nine superglobal caches violate the first and are listed as known findings. Response bytes, schedules and the handler's own logic are not decided.",
+      "request path approximated by package membership; writes recognised syntactically (assignment, ++, delete/clear, mutating sync/atomic/bytes methods); values reachable only through objects (static properties, the shared AST) are not covered",
+      "DESIGN.md §2 C11")
